@@ -260,7 +260,7 @@ SIG_THEOREMS = ["gen_is_wildcard_eq", "gen_parse_number_in_range_eq", "gen_parse
                 "C10_translated_tcp_ranges", "C09_translated_sig_roundtrip", "C18_translated_layout", "C18_translated_quirks", "C10_translated_mtu_range"]
 
 
-def gen_tie_single(tag, translator, generated, proofs, theorems, model_files, pre=()):
+def gen_tie_single(tag, translator, generated, proofs, theorems, model_files, pre=(), lib=()):
     """One translator -> one generated file -> proof files.  Cached on the generated text, the proof files and the model files;
     failures are recomputed on every run; the compile step is serialised by a lock.
     pre = [(translator, generated file, proof file)...]: translations this one builds on; they are regenerated from the SAME source
@@ -281,7 +281,7 @@ def gen_tie_single(tag, translator, generated, proofs, theorems, model_files, pr
             res["detail"] = "translator: " + out.strip()[-400:]
             return res
         h = hashlib.sha1()
-        for f in [COQ / "Gen" / generated] + [COQ / "Gen" / pf for pf in proofs] + [COQ / f for f in model_files] + [VERIF / "translate" / translator] \
+        for f in [COQ / "Gen" / generated] + [COQ / "Gen" / pf for pf in list(lib) + list(proofs)] + [COQ / f for f in model_files] + [VERIF / "translate" / translator] \
                 + [COQ / "Gen" / x for _, pgen, ppf in pre for x in (pgen, ppf)] + [VERIF / "translate" / ptr for ptr, _, _ in pre]:
             h.update(f.read_bytes() if f.exists() else b"<missing>")
         cache = WORK / "gen_tie_cache" / ("%s-%s.json" % (tag, h.hexdigest()))
@@ -292,7 +292,7 @@ def gen_tie_single(tag, translator, generated, proofs, theorems, model_files, pr
             if rc != 0:
                 res["detail"] = "builds on Gen/%s, which no longer checks: %s" % (pre[0][2], out.strip()[-400:])
                 return res
-        rc, out = sh(" && ".join("timeout 1200 coqc -Q . PV Gen/%s" % f for f in [generated] + proofs), 3900, cwd=COQ)
+        rc, out = sh(" && ".join("timeout 1200 coqc -Q . PV Gen/%s" % f for f in list(lib) + [generated] + proofs), 3900, cwd=COQ)
         if rc == 0 and out.count("Closed under the global context") == len(theorems):
             res["ok"] = True
             res["discharged"] = len(theorems)
@@ -358,6 +358,20 @@ def gen_tie_httpx():
                           ["Model/Text.v", "Model/SigParse.v", "Model/DbParse.v", "Model/HttpRead.v", "Model/HttpMatch.v", "Model/Dump.v", "Spec/C07.v", "Proofs/TextP.v",
                            "Proofs/HttpReadP.v", "Proofs/HttpSigP.v", "../translate/sig2coq.py"],
                           pre=[("sig2coq.py", "GeneratedSig.v", "GenSigP.v")])
+
+
+EFF_THEOREMS = ["exec_call_frame", "gen_fingerprint_calls_write_nothing", "gen_fingerprint_calls_only_copy_their_input", "gen_http_buffer_only_converted_to_bytes",
+                "gen_impersonate_tcp_writes_only_rng", "gen_impersonate_mtu_writes_only_its_packet_variant", "gen_impersonate_mtu_writes_only_its_packet",
+                "gen_database_readers_write_nothing", "gen_database_load_writes_only_self", "gen_no_global_object_written", "gen_call_summary_total",
+                "gen_only_param0_may_be_written", "gen_model_agrees", "C12_translated_frame", "C12_translated_fingerprint_and_impersonate_tcp"]
+
+
+def gen_tie_eff():
+    """ALL modules of pyp0f -> a may-write effect summary per public entry point (translate/eff2coq.py: a fail-closed, flow-insensitive, interprocedural
+    analysis over the AST: which caller-owned objects - parameters and what is reachable from them, module-level objects - a call may WRITE, which
+    of them it hands to library code, what its result may alias), emitted as Gallina data (Gen/GeneratedEff.v) and connected to the heap / frame
+    model of C12 in coq/Gen/GenEffP.v (gen_model_agrees, C12_translated_frame)."""
+    return gen_tie_single("eff", "eff2coq.py", "GeneratedEff.v", ["GenEffP.v"], EFF_THEOREMS, ["Model/Frame.v", "Proofs/FrameP.v"], lib=["GenEffLib.v"])
 
 
 # --------------------------------------------------------------------------- model side
@@ -518,6 +532,8 @@ def run_check(prop, tier, replay=None):
                 ties.append(("Gen/GenSigP.v:", "Gen/GenSigP.v", " && translate/sig2coq.py /repo coq/Gen/GeneratedSig.v && coqc Gen/GeneratedSig.v Gen/GenSigP.v Gen/GenSigC.v", gen_tie_sig()))
             if "httpx" in spec:
                 ties.append(("Gen/GenHttpP.v:", "Gen/GenHttpP.v", " && translate/http2coq.py /repo coq/Gen/GeneratedHttp.v && coqc Gen/GeneratedHttp.v Gen/GenHttpP.v Gen/GenHttpC.v", gen_tie_httpx()))
+            if "eff" in spec:
+                ties.append(("Gen/GenEffP.v:", "Gen/GenEffP.v", " && translate/eff2coq.py /repo coq/Gen/GeneratedEff.v && coqc Gen/GenEffLib.v Gen/GeneratedEff.v Gen/GenEffP.v", gen_tie_eff()))
             if "file" in spec:
                 ties.append(("Gen/GenFileP.v:", "Gen/GenFileP.v", " && translate/file2coq.py /repo coq/Gen/GeneratedFile.v && coqc Gen/GeneratedFile.v Gen/GenFileP.v Gen/GenFileC.v", gen_tie_file()))
             proof["gen_tie"] = {}
@@ -543,7 +559,7 @@ def run_check(prop, tier, replay=None):
             if x in GEN_GROUPS:
                 last.append(GEN_GROUPS[x][1][-1])
         last += {"imp": ["GenImpC.v"], "sig": ["GenSigC.v"], "file": ["GenDbC.v"], "httpx": ["GenHttpC.v"]}.get("imp" if "imp" in spec else "", [])
-        for k, f in (("sig", "GenSigC.v"), ("file", "GenDbC.v"), ("httpx", "GenHttpC.v")):
+        for k, f in (("sig", "GenSigC.v"), ("file", "GenDbC.v"), ("httpx", "GenHttpC.v"), ("eff", "GenEffP.v")):
             if k in spec:
                 last.append(f)
         FORCE_TIE[0] = True
@@ -551,7 +567,7 @@ def run_check(prop, tier, replay=None):
         fcntl.flock(lock, fcntl.LOCK_EX)          # one thorough tie re-check at a time (the inner lock is taken per tie)
         try:
             groups = [x for x in spec if x in GEN_GROUPS]
-            redo = ([gen_tie(groups)] if groups else []) + [f() for k, f in (("imp", gen_tie_imp), ("sig", gen_tie_sig), ("file", gen_tie_file), ("httpx", gen_tie_httpx)) if k in spec]
+            redo = ([gen_tie(groups)] if groups else []) + [f() for k, f in (("imp", gen_tie_imp), ("sig", gen_tie_sig), ("file", gen_tie_file), ("httpx", gen_tie_httpx), ("eff", gen_tie_eff)) if k in spec]
             chk = []
             if all(r["ok"] for r in redo):
                 for f in last:
@@ -755,6 +771,13 @@ def run_check(prop, tier, replay=None):
                       "LITERALLY from the source and refused if different: the regex ^HTTP/1\\.(?P<version>\\d)$ (as Python applies it: `$` also matches before one trailing LF), "
                       "the regex ,(?![^\\[]*\\]) = the model's hsplit, h11's maybe_extract_lines = the model's extract_lines, bytes.split(None, 2) / strip / lower / partition = "
                       "Model/Text.v + Model/HttpRead.v functions; Gen/GenHttpP.v + GenHttpC.v re-checked on every run")
+        if "eff" in spec:
+            tb.append("translator translate/eff2coq.py (ALL pyp0f modules -> may-write effect summaries): its abstract domain (origins Param / Glob / Fresh, self vs content, flow-insensitive union, "
+                      "call-graph fixpoint, method resolution by name), and its explicit tables, printed into the generated file (gen_assumed_externals, gen_mutating_methods, gen_trusted_rebindings, gen_lib_reads): "
+                      "ASSUMED pure / deep-copying externals (bytes(), str / bytes methods, Scapy Packet.copy() and the `/` operator copying both operands, struct, re ...), container and h11 / Scapy "
+                      "mutators; three facts are re-checked on the INSTALLED Scapy / h11 sources on every run (FlagValue has no in-place operator, Packet.__div__ copies both operands, every Packet / "
+                      "ReceiveBuffer method that stores into self is in the mutating table); what Scapy / h11 do INSIDE the assumed-pure operations stays with the run-time monitor; "
+                      "Gen/GenEffLib.v + GenEffP.v re-checked on every run")
         if "file" in spec:
             tb.append("translator translate/file2coq.py + db2coq.py (parser.py's line loop / _parse_section, labels/*.py, records/*.py, records_database.py create / add / _get / iter_values / "
                       "get_random / __len__ / _replace, Database.load -> step function over a generated state; random.choice(l) = nth pick l for an index argument, open() / always_path assumed): its reading of the subset; ASSUMED: HTTPSignature.parse = the model's parse_http_sig, a dict = insertion-ordered association list, "
